@@ -250,10 +250,14 @@ class _Win:
         return ('other', norm(e))
 
     def run(self, f, env, depth=0):
-        env = dict(env)
-        ret = None
         self.mut = getattr(self, 'mut', [])
-        for s in f.node.body:
+        env, ret = self.block(f, f.node.body, dict(env), depth)
+        return ret
+
+    def block(self, f, stmts, env, depth):
+        """straight-line evaluation; if/else branches are evaluated separately and merged (differing values become phi)"""
+        ret = None
+        for s in stmts:
             if isinstance(s, ast.Assign):
                 v = self.ev(f, s.value, env, depth)
                 t = s.targets[0]
@@ -266,13 +270,28 @@ class _Win:
                     elif v[0] == 'kres' and v[1] is None:
                         for i, x in enumerate(t.elts):
                             env[x.id] = ('kres', i)
+                    else:
+                        for i, x in enumerate(t.elts):
+                            if isinstance(x, ast.Name):
+                                env[x.id] = ('unpack', v, i)
                 elif isinstance(t, ast.Attribute):
                     self.mut.append((norm(t), env.get(norm(t.value)), t.attr))
                 elif isinstance(t, ast.Subscript):
                     self.mut.append((norm(t), env.get(norm(t.value)), '[]'))
+            elif isinstance(s, ast.Expr):
+                self.ev(f, s.value, env, depth)
+            elif isinstance(s, ast.If):
+                e1, r1 = self.block(f, s.body, dict(env), depth)
+                e2, r2 = self.block(f, s.orelse, dict(env), depth)
+                for k in set(e1) | set(e2):
+                    a, b_ = e1.get(k, ('undef',)), e2.get(k, ('undef',))
+                    env[k] = a if a == b_ else ('phi', a, b_)
+                if r1 is not None or r2 is not None:
+                    ret = r1 if r1 == r2 else ('phi', r1, r2) if ret is None else ret
             elif isinstance(s, ast.Return) and s.value is not None:
                 ret = self.ev(f, s.value, env, depth)
-        return ret
+                break
+        return env, ret
 
 
 def analyse(prog, rep, pubname, mode):
